@@ -430,6 +430,38 @@ def run(rep):
                   None if not kbad else "tokens %s -> %s, expected %s" % (list(kbad[0][0]), kbad[0][2], kbad[0][1]))
         rep.extra["key_model_vectors"] = len(krows)
 
+    # ---------------------------------------------------------------- T-IDENT-CLASS: which characters make up a field name
+    rep.describe("T-IDENT-CLASS", "an identifier token is a maximal run of alphanumerics, '_', '.', '#', '[' and ']' (so a key such as a.b[0] or ticket#id is one name)")
+    tkf = F.fn("<std::string::String as tokeniser::Tokeniser>::tokenise")
+    if tkf is None:
+        rep.lost("T-IDENT-CLASS", "T-IDENT-CLASS/anchor", "String::tokenise")
+    else:
+        import c04 as _c04
+        nid = 0
+        for n_ in walk(tkf.body):
+            if not (call_is(n_, "tokeniser::consume_while") and len(n_["args"]) == 2 and peel(n_["args"][1]).get("k") == "Closure"):
+                continue
+            # the run that becomes Token::Identifier (directly or through a let)
+            feeds = False
+            for x in walk(tkf.body):
+                if x.get("k") == "Adt" and x.get("adt", "").endswith("tokeniser::Token") and x.get("variant") == "Identifier":
+                    src = x["fields"][0]["e"]
+                    r_ = q.resolve(tkf.body, src) if peel(src).get("k") == "Var" else src
+                    if r_ is not None and any(y is n_ for y in walk(r_)):
+                        feeds = True
+            if not feeds:
+                continue
+            nid += 1
+            try:
+                pred = _c04.char_pred(F, peel(n_["args"][1])["def"])
+                acc = "aZq09_.#[]" + "\u00e9"
+                rej = " ()=<>-*?'\",:;/\\!@$%^&+|~`{}\t\n"
+                wrong = [c for c in acc if not pred(c)] + [c for c in rej if pred(c)]
+                rep.check(not wrong, "T-IDENT-CLASS", "T-IDENT-CLASS/run#%d" % nid, n_["sp"], "the identifier run takes exactly the name characters", "misclassified: %r" % wrong if wrong else None)
+            except (ValueError, TypeError) as e:
+                rep.lost("T-IDENT-CLASS", "T-IDENT-CLASS/run#%d" % nid, "identifier predicate is a char-class expression", str(e)[:120])
+        rep.check(nid >= 1, "T-IDENT-CLASS", "T-IDENT-CLASS/sites", tkf.sp, "the consume_while run that becomes Token::Identifier", str(nid))
+
     # ---------------------------------------------------------------- T-CONJ
     # the entry vector: the one the and-group result is built from
     evs = {q.var_id(f["e"]) for n in walk(pm.body) if n.get("k") == "Adt" and n["adt"] == "parser::Expression" and n["variant"] == "BooleanGroup" and any(peel(g["e"]).get("variant") == "And" for g in n["fields"])
@@ -531,6 +563,7 @@ def run(rep):
     mismatch_siblings(rep, F)
     core.import_rules(rep, "c06", {"TRI-AND", "TRI-OR", "TRI-NOT", "TRI-ALL", "TRI-OF", "TRI-VERDICT"})
     core.import_rules(rep, "c10", {"T-FIND", "STEP-TOTAL", "INDEX", "T-NESTED", "NESTED-MODEL"})
+    core.import_rules(rep, "c10", {"NO-OVERRIDE"})
     core.import_rules(rep, "c07", {"T-PATTERN", "T-SEARCH", "FLAG", "PLAIN-CASE", "AHO-OVERLAP", "T-OFFSET", "LOCKSTEP", "LOWERCASE"})
     rep.floor("T-LOWER", 40)
     rep.floor("OPERAND", 30)
